@@ -372,8 +372,14 @@ func c10Prop(t *rapid.T) {
 	fail := func(sig, detail string) {
 		vt.Violation(t, sig, detail+"\ntrace: "+strings.Join(trace, " ; "), map[string]interface{}{"names": names, "trace": trace})
 	}
+	// four revision numbers per case, often with different digit counts (v2 / v10 / v100 order differently as numbers
+	// and as strings)
+	revs := rapid.SliceOfNDistinct(rapid.SampledFrom([]int{1, 2, 3, 4, 9, 10, 11, 12, 20, 99, 100, 101}), 4, 4, func(i int) int { return i }).Draw(t, "revs")
+	sort.Ints(revs)
+	mixedDigits := len(fmt.Sprint(revs[0])) != len(fmt.Sprint(revs[3]))
+	var sawUpdateOfReadBack bool
 	drawKey := func(t *rapid.T) c10Key {
-		return c10Key{rapid.SampledFrom(names).Draw(t, "name"), rapid.IntRange(1, 4).Draw(t, "rev")}
+		return c10Key{rapid.SampledFrom(names).Draw(t, "name"), rapid.SampledFrom(revs).Draw(t, "rev")}
 	}
 	matches := func(k c10Key, q map[string]string) bool {
 		r := modelRel[k]
@@ -483,6 +489,61 @@ func c10Prop(t *rapid.T) {
 				modelRel[k] = c10Clone(proto)
 			}
 		},
+		"updateReadBack": func(t *rapid.T) {
+			// read-modify-write as the actions do it: the release object comes from Query/List/Get of that very backend,
+			// only its status changes, and it is written back
+			if len(model) == 0 {
+				t.Skip("nothing stored")
+			}
+			var ks []c10Key
+			for k := range model {
+				ks = append(ks, k)
+			}
+			sort.Slice(ks, func(i, j int) bool { return ks[i].name < ks[j].name || (ks[i].name == ks[j].name && ks[i].rev < ks[j].rev) })
+			k := rapid.SampledFrom(ks).Draw(t, "key")
+			how := rapid.SampledFrom([]string{"query", "list", "get"}).Draw(t, "readBy")
+			st := rapid.SampledFrom(c10Statuses).Draw(t, "status")
+			trace = append(trace, fmt.Sprintf("update-read-back %s/%d via %s status=%s", k.name, k.rev, how, st))
+			for _, b := range backs {
+				var got *release.Release
+				var err error
+				switch how {
+				case "query":
+					var rs []*release.Release
+					rs, err = b.st.Query(map[string]string{"name": k.name, "owner": "helm"})
+					for _, r := range rs {
+						if r.Version == k.rev {
+							got = r
+						}
+					}
+				case "list":
+					var rs []*release.Release
+					rs, err = b.st.List(func(r *release.Release) bool { return r.Name == k.name && r.Version == k.rev })
+					if len(rs) == 1 {
+						got = rs[0]
+					}
+				default:
+					got, err = b.st.Get(k.name, k.rev)
+				}
+				if err != nil || got == nil {
+					fail("C10:"+how+"/stored-release-not-returned/"+b.name, fmt.Sprintf("key %v err=%v", k, err))
+					continue
+				}
+				info := *got.Info
+				info.Status = st
+				got.Info = &info
+				if ec := c10ErrClass(b.st.Update(got)); ec != "ok" {
+					fail("C10:update/existing-key-fails/"+b.name, fmt.Sprintf("key %v got %s (release as read back via %s)", k, ec, how))
+				}
+			}
+			if modelRel[k].Info.Status != st {
+				statusUpdated = true
+			}
+			nr := c10Clone(modelRel[k])
+			nr.Info.Status = st
+			model[k], modelRel[k] = c10Canon(nr), nr
+			sawUpdateOfReadBack = true
+		},
 		"get": func(t *rapid.T) {
 			k := drawKey(t)
 			want, exists := model[k]
@@ -547,7 +608,7 @@ func c10Prop(t *rapid.T) {
 				q["status"] = rapid.SampledFrom(c10Statuses).Draw(t, "status").String()
 			}
 			if rapid.Bool().Draw(t, "qVersion") {
-				q["version"] = fmt.Sprint(rapid.IntRange(1, 4).Draw(t, "rev"))
+				q["version"] = fmt.Sprint(rapid.SampledFrom(revs).Draw(t, "rev"))
 			}
 			var want []c10Key
 			for k := range model {
@@ -649,12 +710,18 @@ func c10Prop(t *rapid.T) {
 	if dotName {
 		lbls = append(lbls, "dotted-name")
 	}
+	if mixedDigits {
+		lbls = append(lbls, "revisions-with-different-digit-counts")
+	}
+	if sawUpdateOfReadBack {
+		lbls = append(lbls, "update-of-a-release-as-read-back")
+	}
 	nontrivial := (sawPrecondFail && sawQueryAfterStatusUpdate) || dotName
 	evid.Case(lbls, strings.Join(names, ",")+"|"+strings.Join(trace, ";"), nontrivial, map[string]interface{}{"names": names, "calls": trace})
 }
 
 func TestC10(t *testing.T) {
-	evid.Extra("rule", "C10: rapid state machine of create/update/get/delete/query/list/history/last calls with generated releases over 2-4 generated release names x revisions 1..4, run in lock-step on the memory, Secret and ConfigMap backends and a reference map; after every call error classes, returned releases and result sets are compared, followed by a full scan. Non-trivial = the sequence contains a call whose precondition fails (create existing / get, update, delete missing) and a status query after a status-changing update, or uses a release name containing a dot; distinct by (names, call sequence).")
+	evid.Extra("rule", "C10: rapid state machine of create/update/get/delete/query/list/history/last calls with generated releases over 2-4 generated release names x four revision numbers drawn from 1..101 (often with different digit counts), including updates that write back a release object exactly as Query/List/Get of that backend returned it with only the status changed, run in lock-step on the memory, Secret and ConfigMap backends and a reference map; after every call error classes, returned releases and result sets are compared, followed by a full scan. Non-trivial = the sequence contains a call whose precondition fails (create existing / get, update, delete missing) and a status query after a status-changing update, or uses a release name containing a dot; distinct by (names, call sequence).")
 	evid.Extra("assumptions", []string{
 		"Secret/ConfigMap backends run over client-go's fake clientset (no real API server, no size limit of 1 MiB per object enforced)",
 		"integers in values are limited to |n| <= 2^53 (the record format is JSON; larger integers are not representable)",
